@@ -413,11 +413,16 @@ func (w *worker[T, JobType]) goRemoveIdleWorkers() {
 			}
 
 			nodes := w.pool.NodeSlice()
+			// the pool may have shrunk since the length check above
+			if len(nodes) <= targetIdleWorkers {
+				continue
+			}
+
 			// If we have more nodes than our target, close the excess ones
 			for _, node := range nodes[targetIdleWorkers:] {
-				if node.Value.GetLastUsed().Add(interval).Before(time.Now()) &&
-					!(node.Next() == nil && node.Prev() == nil) { // if both nil, it means the node is not in the list and not idle
-					w.pool.Remove(node)
+				// Remove reports whether the node was still idle in the pool: a node the
+				// event loop has taken in the meantime belongs to its job and must not be stopped
+				if node.Value.GetLastUsed().Add(interval).Before(time.Now()) && w.pool.Remove(node) {
 					node.Value.Stop()
 					w.pool.Cache.Put(node)
 				}
@@ -485,9 +490,11 @@ func (w *worker[T, JobType]) closeChannels() {
 // stopAndRemoveAllWorkers removes all nodes from the list and closes the pool nodes
 func (w *worker[T, JobType]) stopAndRemoveAllWorkers() {
 	for _, node := range w.pool.NodeSlice() {
-		w.pool.Remove(node)
-		node.Value.Stop()
-		w.pool.Cache.Put(node)
+		// only stop the nodes that were still idle in the pool
+		if w.pool.Remove(node) {
+			node.Value.Stop()
+			w.pool.Cache.Put(node)
+		}
 	}
 }
 
